@@ -71,11 +71,11 @@ def mc_expander(ctx, casefile, cont, skip, label, liveness=True):
 
 class Batch:
     def __init__(self, genset, layouts, opts, rots, failsets=('none',), reps=2, names='plain', spell='simple', entry='ExpandSpec',
-                 caches='none', ids='', watchdog='8s', oddtargets=False):
+                 caches='none', ids='', watchdog='8s', oddtargets=False, allfaults=False):
         self.genset, self.layouts, self.opts, self.rots = genset, layouts, opts, rots
         self.failsets, self.reps, self.names, self.spell, self.entry = failsets, reps, names, spell, entry
         self.caches = caches
-        self.ids, self.watchdog, self.oddtargets = ids, watchdog, oddtargets
+        self.ids, self.watchdog, self.oddtargets, self.allfaults = ids, watchdog, oddtargets, allfaults
 
 
 def random_graphs(ctx, n, docs, count, dangling=False):
@@ -108,6 +108,8 @@ def observe(ctx, batches):
             args += ['-ids', b.ids]
         if b.oddtargets:
             args += ['-oddtargets']
+        if b.allfaults:
+            args += ['-allfaults']
         obsfiles += vlib.run_worker(ctx, 'expander', cases, args, prefix='exp%d' % i)
     return obsfiles
 
@@ -233,7 +235,11 @@ def s1_mc(ctx):
 
 
 def check_c02(ctx):
-    rep = run_batches(ctx, s1_batches(ctx, ['000', '001']), ['c02'], s1_mc(ctx), nontrivial=lambda o, v: v['wf'])
+    sd = seeded(ctx)
+    extra = [Batch(G_N3_D3_WF if ctx.tier == 'thorough' else G_N3_ALL_WF,
+                   ['subdir+otherdir', 'parent+sibling', 'remote+subdir'] if ctx.tier == 'thorough' else ['subdir', 'parent', 'otherdir'],
+                   ['000'], [sd['rot']], reps=1, entry='ExpandSpec2', names=sd['names'], spell=sd['spell'])]
+    rep = run_batches(ctx, s1_batches(ctx, ['000', '001']) + extra, ['c02'], s1_mc(ctx), nontrivial=lambda o, v: v['wf'])
     return rep.finish(
         'model_checking',
         'TLC enumerates every well-founded reference graph within the bounds of the tier (all element kinds N<=3 nodes in 2 '
@@ -241,7 +247,8 @@ def check_c02(ctx):
         'on exactly these graphs for every map order; each graph is concretised for every document layout class x '
         'AbsoluteCircularRef on/off x seed-rotated sub-schema keyword / name class / $ref spelling, expanded by the real '
         'ExpandSpec and judged by RefGraph!Bisimilar on the projected input/output. distinct_nontrivial = distinct (graph, '
-        'layout, options, rotation) tuples with a well-founded graph.',
+        'layout, options, rotation) tuples with a well-founded graph. Entry ExpandSpec2: the same root expanded twice with the very '
+        'same options value (documents in other directories), the second result is judged.',
         ASSUME)
 
 
@@ -304,16 +311,16 @@ def check_c08(ctx):
     preds = ['c08noerr', 'c08err', 'c08contok', 'c08contbisim', 'c08contcut']
     modes = ['000', '010', '100', '110']
     if ctx.tier == 'thorough':
-        batches = [Batch(G_N3_ALL_ANY, ALL_LAYOUTS, modes, [(sd['rot'] + i) % 12 for i in range(6)], failsets=('none', '1'),
-                         reps=1, names=sd['names'], spell=sd['spell']),
+        batches = [Batch(G_N3_ALL_ANY, ALL_LAYOUTS, modes, [(sd['rot'] + i) % 12 for i in range(3)], failsets=('none', '1'),
+                         reps=1, names=sd['names'], spell=sd['spell'], allfaults=True),
                    Batch(G_N3_D3_WF, ['sibling+subdir', 'parent+otherdir', 'remote+sibling'], modes, [sd['rot']],
                          failsets=('none', '1', '2', '1+2'), reps=1),
                    Batch(G_N4_S_WF, ALL_LAYOUTS, ['000', '010'], [sd['rot']], failsets=('none', '1'), reps=1)]
         mcs = [(G_N3_ALL_ANY, False, False, 'any_strict_full'), (G_N3_ALL_ANY, True, False, 'any_cont_full'),
                (G_N3_ALL_ANY, False, True, 'any_strict_skip'), (G_N3_ALL_ANY, True, True, 'any_cont_skip')]
     else:
-        batches = [Batch(G_N3_ALL_ANY, ['sibling', ALL_LAYOUTS[1 + ctx.seed % (len(ALL_LAYOUTS) - 1)]], modes, [sd['rot']], failsets=('none', '1'),
-                         reps=1, names=sd['names'], spell=sd['spell']),
+        batches = [Batch(G_N3_ALL_ANY, [ALL_LAYOUTS[ctx.seed % len(ALL_LAYOUTS)]], modes, [sd['rot']], failsets=('none',),
+                         reps=1, names=sd['names'], spell=sd['spell'], allfaults=True),
                    Batch(G_N3_ALL_WF, ALL_LAYOUTS, ['000', '010'], [(sd['rot'] + 1) % 12], failsets=('none', '1'), reps=1)]
         mcs = [(G_N3_ALL_ANY, False, False, 'any_strict_full'), (G_N3_ALL_ANY, True, False, 'any_cont_full')]
     rep = run_batches(ctx, batches, preds, mcs, nontrivial=lambda o, v: v['nbad'] > 0 or len(o['failurl']) > 0,
@@ -321,7 +328,8 @@ def check_c08(ctx):
     return rep.finish(
         'model_checking',
         'TLC enumerates every reference graph over N<=3 nodes with any subset of $ref targets removed (dangling refs; the worker '
-        'rotates the fault class: missing document, missing pointer, target that is a string / number / boolean / array), '
+        'gives a single unresolvable ref every fault class and rotates it otherwise: missing document, missing pointer, a name that differs '
+        'from an element being expanded by letter case only, target that is a string / number / boolean / array), '
         'combined with loader refusal of every subset of the external documents, ContinueOnError x SkipSchemas on/off. '
         'Predicates (ExpOracle.tla): strict => (error <=> some $ref the call has to follow designates nothing); continue => no '
         'error, every entry that does not depend on an unresolvable parameter/response/path-item ref is bisimilar to the input '
@@ -381,7 +389,19 @@ def check_c10(ctx):
         batches = [Batch(G_N3_ALL_WF, ALL_LAYOUTS, ['000'], [sd['rot']], reps=2, entry=ELEMENT_ENTRIES_CWD, names=sd['names'], spell=sd['spell']),
                    Batch(G_N3_ALL_WF, ALL_LAYOUTS, ['000', '001'], [sd['rot']], reps=2, entry=ELEMENT_ENTRIES_BASE, names=sd['names'], spell=sd['spell'])]
         mcs = [(G_N3_ALL_WF, False, False, 'N3_strict_full')]
+    fr = Batch(G_N3_ALL_WF, ALL_LAYOUTS if ctx.tier == 'thorough' else ['sibling', 'subdir', 'parent'], ['000'], [sd['rot']], reps=1,
+               entry='ExpandSchema:typed,ExpandSchema:generic', caches='foreignroot', names=sd['names'], spell=sd['spell'])
+    batches.append(fr)
     rep = run_batches(ctx, batches, preds, mcs, nontrivial=lambda o, v: v['wf'] and o['outcome'] == 'ok')
+    # options without a RelativeBase (only the caller's options and totality are judged: without a root
+    # document the pseudo root is empty, so local references legitimately fail)
+    nb = [Batch(G_N3_ALL_WF, ['sibling', 'subdir'], ['000', '001'], [sd['rot']], reps=1, entry='ExpandSchemaWithBasePath:nobase')]
+    rep2 = run_batches(ctx, nb, ['c10opts', 'c04'], [], nontrivial=lambda o, v: True)
+    rep.evaluations += rep2.evaluations
+    rep.violations += rep2.violations
+    rep.nontrivial |= rep2.nontrivial
+    for k, n in rep2.counts.items():
+        rep.counts['nobase:' + k] = n
     return rep.finish(
         'model_checking',
         'Every referable element (definition / parameter / response) of every enumerated root is expanded through every '
@@ -390,7 +410,8 @@ def check_c10(ctx):
         'package PathLoader swapped for the recording loader). The result, placed at the element\'s own pointer in a document '
         'at the root location, must be bisimilar to the element in the input graph (kept refs resolve against the same root), '
         'be cut only on cycles, and the root document and the caller\'s ExpandOptions must be unchanged (JSON / field equality '
-        'before and after). In-memory-root entries run in a private working directory shaped like the layouts.',
+        'before and after). In-memory-root entries run in a private working directory shaped like the layouts. Also: a caller cache '
+        'that served an expansion against another root of the same shape before (foreignroot), and options without a RelativeBase.',
         ASSUME)
 
 
